@@ -77,6 +77,21 @@ Lemma sweep_upto (P : Z -> bool) n :
   forallb P (upto n) = true -> forall x, 0 <= x < n -> P x = true.
 Proof. intros H x Hx. rewrite forallb_forall in H. apply H, in_upto, Hx. Qed.
 
+(* linear-time enumeration for large sweeps (upto is quadratic under vm_compute: Z.of_nat k costs k) *)
+Fixpoint upto_from (k : nat) (z : Z) : list Z :=
+  match k with O => [] | S k' => z :: upto_from k' (z + 1) end.
+Definition upto_fast (n : Z) : list Z := upto_from (Z.to_nat n) 0.
+Lemma upto_from_seq k : forall s, upto_from k (Z.of_nat s) = map Z.of_nat (seq s k).
+Proof.
+  induction k as [|k IH]; intros s; cbn [upto_from seq map]; [reflexivity|].
+  f_equal. replace (Z.of_nat s + 1) with (Z.of_nat (S s)) by lia. apply IH.
+Qed.
+Lemma upto_fast_eq n : upto_fast n = upto n.
+Proof. unfold upto_fast, upto. apply (upto_from_seq _ 0%nat). Qed.
+Lemma sweep_upto_fast (P : Z -> bool) n :
+  forallb P (upto_fast n) = true -> forall x, 0 <= x < n -> P x = true.
+Proof. rewrite upto_fast_eq. apply sweep_upto. Qed.
+
 Lemma sweep_byte (P : Z -> bool) :
   forallb P (upto 256) = true -> forall x, byte x -> P x = true.
 Proof. intros H x Hx. apply (sweep_upto P 256 H x Hx). Qed.
